@@ -55,7 +55,7 @@ class Contract(object):
                  doc="", fresh_result=None, allow_raises=None, with_items=None,
                  spec_only=False, opaque_calls=None, strict_raises=True,
                  pos_params=None, vararg=None, kwarg=None, defaults=None,
-                 frame_exempt=None, assume=None):
+                 frame_exempt=None, assume=None, globals=None):
         self.fid = fid
         self.params = dict(params or {})        # name -> type string
         self.requires = _labelled(requires)
@@ -86,6 +86,7 @@ class Contract(object):
         self.kwarg = kwarg
         self.defaults = dict(defaults or {})    # name -> python constant
         self.frame_exempt = list(frame_exempt or [])
+        self.globals = dict(globals or {})      # name -> ("singleton", cls) | ("contract", id) | constant
         self.assume = _labelled(assume)         # assumptions local to the proof of this function (listed in evidence)
 
 
